@@ -18,8 +18,8 @@ enum { SC_DEFAULT, SC_PIPES_INPUT, SC_ERR2OUT, SC_DISCARD, SC_PATH, SC_FILE, SC_
 static const char *const scn_names[] = { "default", "pipes+input", "stderr-to-stdout", "discard", "path", "file", "handle", "parent",
                                          "workdir+relative", "env-extend", "nonblocking", "fork", "stderr-to-parent-stdout-by-handle", "parent,stdin+stderr-closed" };
 
-enum { H_DESTROY, H_WAIT, H_ROUNDTRIP, H_DRAIN, H_TERMKILL, H_KILLWAIT, H_RUNEX, H_LATEPOLL, NHIST };
-static const char *const hist_names[] = { "destroy", "wait", "roundtrip", "drain", "term-wait-kill", "kill-wait", "run_ex", "deadline-passes,poll,drain,kill,wait" };
+enum { H_DESTROY, H_WAIT, H_ROUNDTRIP, H_DRAIN, H_TERMKILL, H_KILLWAIT, H_RUNEX, H_LATEPOLL, H_DRAIN_STRING, NHIST };
+static const char *const hist_names[] = { "destroy", "wait", "roundtrip", "drain", "term-wait-kill", "kill-wait", "run_ex", "deadline-passes,poll,drain,kill,wait", "drain-into-strings" };
 
 enum { N_MISSING, N_DIRECTORY, N_NOEXEC, N_TOOLONG, N_WD_MISSING, N_WD_FILE, N_PATH_NODIR, N_PATH_ISDIR, N_INPUT_BIG, N_BARE_MISSING, N_OWN_HANDLE_CLOSED, N_OWN_FILE_CLOSED, NNAT };
 static const char *const nat_names[] = { "missing-program", "directory-as-program", "no-x-bit", "path-too-long", "workdir-missing",
@@ -467,6 +467,15 @@ static void body(const struct params *pa)
     vk_faults_armed = 0;
     int pr = hx_pid(p);
     if (pr != REPROC_EINVAL) vk_violation("C04", "failed-start-handle-state", key, "reproc_pid returned %s after a failed start", hx_errname(pr));
+    {
+      /* C06: a handle that is not running refers to no process: terminate, kill and wait are refused and nothing reaches kill()/waitpid() */
+      int bk = vk_bad_kills, bw = vk_bad_waits;
+      int tr = hx_terminate(p), tapi = hx_last_api, kr = hx_kill(p), kapi = hx_last_api, wr = hx_wait(p, 0), wapi = hx_last_api;
+      int ncalls = vk_count_calls(tapi, C_KILL) + vk_count_calls(kapi, C_KILL) + vk_count_calls(wapi, C_WAITPID) + vk_count_calls(wapi, C_KILL);
+      if (tr != REPROC_EINVAL || kr != REPROC_EINVAL || wr != REPROC_EINVAL || ncalls || vk_bad_kills != bk || vk_bad_waits != bw)
+        vk_violation("C06", "not-running-handle-signals-nothing", key, "after a failed start terminate/kill/wait returned %s/%s/%s and made %d kill/waitpid call(s) (%d of them aimed at something that is no child of the handle)",
+                     hx_errname(tr), hx_errname(kr), hx_errname(wr), ncalls, vk_bad_kills - bk + vk_bad_waits - bw);
+    }
     vk_hit(CL_START_FAILED_CLEAN);
     /* the handle must be startable again */
     struct scn sc2;
@@ -587,6 +596,20 @@ after_ident:;
       int dr = reproc_drain(p, s1, s2);
       vk_api_end(dr);
       vk_obs("drain=%s out=%d err=%d", hx_errname(dr), cnt[1], cnt[2]);
+      reproc_stop_actions sa = { { REPROC_STOP_WAIT, REPROC_INFINITE }, { REPROC_STOP_NOOP, 0 }, { REPROC_STOP_NOOP, 0 } };
+      status = hx_stop(p, sa);
+      break;
+    }
+    case H_DRAIN_STRING: {
+      /* the documented way to collect output: string sinks, freed by the caller whatever drain returned */
+      char *so = NULL, *se = NULL;
+      hx_close(p, REPROC_STREAM_IN);
+      hx_last_api = vk_api_begin("drain(strings)");
+      int dr = reproc_drain(p, reproc_sink_string(&so), reproc_sink_string(&se));
+      vk_api_end(dr);
+      vk_obs("drain(strings)=%s out=%zu err=%zu", hx_errname(dr), so ? strlen(so) : 0, se ? strlen(se) : 0);
+      reproc_free(so);
+      reproc_free(se);
       reproc_stop_actions sa = { { REPROC_STOP_WAIT, REPROC_INFINITE }, { REPROC_STOP_NOOP, 0 }, { REPROC_STOP_NOOP, 0 } };
       status = hx_stop(p, sa);
       break;
